@@ -29,7 +29,7 @@ func init() {
 	vx.Register(&vx.Prop{
 		ID:    "C04",
 		Level: "fault_enumeration",
-		Rule: "burst corruption: for each base file every start bit x every XOR pattern of length 1..16 whose first and last bit are set (2^15 patterns per position), skipping bursts that touch header byte 0 or bytes 4-7; both Decode and CheckIntegrity must fail (quick: exhaustive on small files with 12-byte, 14-byte and zero-CRC headers and an Encode output; thorough: more and longer files). " +
+		Rule: "burst corruption: for each base file every start bit x every XOR pattern of length 1..16 whose first and last bit are set (2^15 patterns per position), skipping bursts that touch header byte 0 or bytes 4-7; both Decode and CheckIntegrity must fail (quick: exhaustive on small files with 12-byte, 14-byte and zero-CRC headers and an Encode output; thorough: more and longer files); files whose data size is 4095/4096/4097/8192/12288 bytes with single-bit flips and 16-bit all-ones bursts at every (quick: every third) byte. " +
 			"Header CRC: all 65536 stored CRC values x header content variants through CheckIntegrity(headerOnly), DecodeHeader, Decode and Header.CheckIntegrity; accepted iff stored CRC is 0 or the reference CRC, identically for all APIs. Every corpus file and Encode output that Decode accepts must pass CheckIntegrity. " +
 			"distinct = distinct corrupted inputs (stream, start bit, pattern) plus distinct (header variant, stored CRC) pairs",
 		Assumptions: []string{"CRC-16 detects every burst of <=16 bits; the check demands only that *some* error is returned"},
@@ -159,6 +159,83 @@ func runC04(w *vx.W) {
 		w.Fam("burst-files", 1)
 	}
 	w.Sample(map[string]interface{}{"base_file": bases[1].Name, "hex": vx.Hex(bases[1].B), "burst_example": "start bit 96, pattern 0x8001 (len 16)"})
+
+	// ---- files whose data size is at / around a multiple of the decoder's 4096-byte buffer: single-bit flips at every
+	// bit and 16-bit all-ones bursts at every byte (reduced pattern set, complete over positions)
+	for _, target := range []int{4095, 4096, 4097, 8192, 12288} {
+		// activity file: file_id (11 bytes) + record definition (15) + n records of 10 bytes + a filler record
+		n := (target - 11 - 15) / 10
+		recs := fitmodel.FileIdRecords(0, 4)
+		recs = append(recs, recordDef(1, false).Bytes())
+		for i := 0; i < n; i++ {
+			recs = append(recs, recordData(1, false, 1000000000+uint32(i), byte(60+i%90), uint32(i)))
+		}
+		rest := target - 11 - 15 - 10*n
+		if rest > 0 {
+			// an unknown message soaks up the remainder: definition 6+3 bytes + data 1+k bytes
+			if rest < 11 {
+				recs = recs[:len(recs)-1]
+				rest += 10
+			}
+			k := rest - 10
+			d := fitmodel.Def{Local: 2, Global: 0xFF00, Fields: []fitmodel.FieldDef{{Num: 0, Size: byte(k), Base: fitmodel.Byte}}}
+			recs = append(recs, d.Bytes(), fitmodel.Data(2, make([]byte, k)))
+		}
+		for _, h := range []fitmodel.Header{hdr12(), hdr14()} {
+			file := fitmodel.File(h, recs...)
+			if got := len(file) - int(file[0]) - 2; got != target {
+				w.HarnessError("C04: built data size %d, wanted %d", got, target)
+			}
+			if w.Shard == 0 {
+				d := safeDecode(bytes.NewReader(file))
+				c := safeCheckIntegrity(bytes.NewReader(file), false)
+				if d.Err != nil || c.Err != nil {
+					w.Violation("valid-file-rejected/data-size", fmt.Sprintf("data size %d: Decode=%v CheckIntegrity=%v", target, d.Err, c.Err), c04Replay{Kind: "valid", Hex: ""})
+				}
+			}
+			buf := make([]byte, len(file))
+			rd := bytes.NewReader(nil)
+			step := 1
+			if !thorough {
+				step = 3 // quick: every third byte (all bits of it); thorough: every byte
+			}
+			for off := int(file[0]); off < len(file); off += step {
+				idx++
+				if !w.Mine(idx) {
+					continue
+				}
+				if off%512 == 0 && w.Expired("block-multiple files") {
+					break
+				}
+				for pat := 0; pat < 9; pat++ {
+					copy(buf, file)
+					if pat < 8 {
+						buf[off] ^= 1 << uint(pat)
+					} else {
+						buf[off] ^= 0xFF
+						if off+1 < len(file) {
+							buf[off+1] ^= 0xFF
+						}
+					}
+					rd.Reset(buf)
+					var derr, cerr error
+					guard(func() { _, derr = fit.Decode(rd) })
+					rd.Reset(buf)
+					guard(func() { cerr = fit.CheckIntegrity(rd, false) })
+					w.Eval(2)
+					if derr == nil || cerr == nil {
+						api := "Decode"
+						if derr != nil {
+							api = "CheckIntegrity"
+						}
+						w.Violation("corruption-accepted/"+api, fmt.Sprintf("file with data size %d (header %d): corruption at byte %d pattern %d accepted: Decode err=%v, CheckIntegrity err=%v", target, file[0], off, pat, derr, cerr),
+							c04Replay{Kind: "burst", Stream: fmt.Sprintf("data-size-%d", target), Hex: "", Bit: off * 8, Pat: uint32(pat)})
+					}
+				}
+			}
+			w.Fam("block-multiple-files", 1)
+		}
+	}
 
 	// ---- header CRC agreement across the four APIs
 	body := fitmodel.Concat(fitmodel.FileIdRecords(0, 4)...)
